@@ -317,6 +317,12 @@ def _run(ctx):
     bad = C.hygiene()
     ctx.obligation("hygiene: no Admitted/Axiom/Parameter/... in coq/", not bad, "; ".join(bad))
     translators(ctx)
+    if not ctx.quick():
+        rc, out = C.run(["coqchk", "-silent", "-o", "-Q", os.path.join(C.COQ, "theories"), "Pq", "Pq.Proofs.CompactProofs", "Pq.Proofs.CThriftMain",
+                         "Pq.Proofs.CThriftReser", "Pq.Proofs.CThriftTypedProofs"], timeout=1500, cwd=C.COQ)
+        ctx.obligation("coqchk -o on the C10 proof libraries: re-checked by the standalone checker, Axioms: <none>",
+                       rc == 0 and "* Axioms: <none>" in out, out[-1500:])
+        ctx.checker_cmds.append("coqchk -silent -o -Q coq/theories Pq Pq.Proofs.{CompactProofs,CThriftMain,CThriftReser,CThriftTypedProofs}")
     stale = [d for d in C.pyx_vs_c() if d[0] == "cencoding"]
     ctx.obligation("cencoding.pyx lines embedded in cencoding.c equal the working tree's .pyx (the compiled code is the source)",
                    not stale, "; ".join("%s:%d %r vs %r" % d for d in stale[:5]))
